@@ -73,6 +73,7 @@ class CompiledFunction:
     source_map: Dict[int, Tuple[int, int]] = field(
         default_factory=dict
     )  # bytecode_pos -> (line, column)
+    is_arrow: bool = False  # Arrow functions take `this` from where they are created
 
 
 @dataclass
@@ -402,6 +403,8 @@ class Compiler:
             body = func_node.body
 
         local_vars = params.copy()
+        if not isinstance(func_node, ArrowFunctionExpression):
+            local_vars.add("arguments")  # arrows use the enclosing function's arguments
         # Find var declarations in function
         self._collect_var_decls(body, local_vars)
 
@@ -1039,7 +1042,8 @@ class Compiler:
                 # any outer scope vars that aren't our locals
                 nested_params = {p.name for p in node.params}
                 nested_locals = nested_params.copy()
-                nested_locals.add("arguments")
+                if not isinstance(node, ArrowFunctionExpression):
+                    nested_locals.add("arguments")
                 if isinstance(node.body, BlockStatement):
                     self._collect_var_decls(node.body, nested_locals)
                 nested_free = self._find_required_free_vars(node.body, nested_locals)
@@ -1090,7 +1094,8 @@ class Compiler:
         # New state for function
         self.bytecode = []
         self.constants = []
-        self.locals = [p.name for p in node.params] + ["arguments"]
+        # No own `arguments`: inside an arrow function it is the enclosing function's
+        self.locals = [p.name for p in node.params]
         self.loop_stack = []
         self.try_stack = []
         self.source_map = {}  # positions are relative to this function's bytecode
@@ -1122,6 +1127,7 @@ class Compiler:
 
         func = CompiledFunction(
             name="",  # Arrow functions are anonymous
+            is_arrow=True,
             params=[p.name for p in node.params],
             bytecode=bytes(self.bytecode),
             constants=self.constants,
